@@ -190,6 +190,9 @@ type Req struct {
 	Hash    crypto.Hash       // 0 = SHA-256
 	Digest  string            // digest name for S/B ("" = derived from Hash)
 	Flags   map[string]string // signer flags
+	// WrapStream, if set, wraps the transformed upload stream before it is handed to the
+	// signer (library pipeline only): lets a test own the read-size schedule.
+	WrapStream func(io.Reader) io.Reader
 }
 
 func (r *Req) out() string {
@@ -279,6 +282,9 @@ func (e *Env) SignLib(r *Req) (err error) {
 	stream, err := transform.GetReader()
 	if err != nil {
 		return err
+	}
+	if r.WrapStream != nil {
+		stream = r.WrapStream(stream)
 	}
 	blob, err := mod.Sign(stream, cert, *opts)
 	if err != nil {
